@@ -163,6 +163,13 @@ def corpus():
          ("ad", [("p4", A("r"))], []), ("ad", [("p5", A("r"))], []),
          ("rule", A("s"), [P(A("h", "a")), P(A("r"))]),
          ("query", A("h", "X")), ("query", A("r")), ("query", A("s"))])
+    add("deterministic-true-queries-under-evidence",
+        [("fact", A("dom", "a")), ("fact", A("dom", "b")), ("fact", A("t")),
+         ("ad", [("p1", A("a"))], []), ("ad", [("p2", A("b"))], []),
+         ("rule", A("c"), [P(A("a"))]), ("rule", A("c"), [P(A("b"))]),
+         ("rule", A("u"), [P(A("dom", "a")), P(A("t"))]),
+         ("evidence", A("c"), True),
+         ("query", A("t")), ("query", A("u")), ("query", A("dom", "X")), ("query", A("a"))])
     add("deterministic-query-next-to-fact",
         [("fact", A("dom", "a")), ("ad", [("p1", A("f"))], []),
          ("rule", A("r1", "X"), [P(A("dom", "X"))]), ("rule", A("r2"), [P(A("f"))]),
@@ -356,6 +363,11 @@ class Gen(object):
             if a not in used:
                 used.add(a)
                 self.prog.append(("query", a))
+        if r.random() < 0.15:
+            q = A("dom", r.choice(self.consts + ["X"]))
+            if q not in used:
+                used.add(q)
+                self.prog.append(("query", q))
         if self.evidence and r.random() < 0.6:
             ne = r.randint(1, 2)
             for _ in range(ne):
@@ -554,4 +566,46 @@ def negcycle_program(rng):
         e = rng.choice(facts) if rng.random() < 0.6 else atom(rng.choice(names), var=False)
         if ("query", e) not in prog:
             prog.append(("evidence", e, rng.random() < 0.5))
+    return prog
+
+
+def negcycle_under_recursion(rng):
+    """A loop through negation that is entered while a positive recursion above it is still open:
+    r (recursive, queried) -> ... -> p, where p depends on its own negation and may have another proof."""
+    nf = rng.randint(2, 3)
+    facts = [A("f%d" % (i + 1)) for i in range(nf)]
+    prog = [("ad", [("p%d" % (i + 1), facts[i])], []) for i in range(nf)]
+    F = lambda: P(rng.choice(facts))
+    r_cl = [("rule", A("r"), [P(A("r")), F()])]
+    if rng.random() < 0.5:
+        r_cl.append(("rule", A("r"), [P(A("s"))]))
+        r_cl.append(("rule", A("s"), [P(A("r")), F()]) if rng.random() < 0.6 else ("rule", A("s"), [P(A("p"))]))
+    r_cl.append(("rule", A("r"), [P(A("p"))] + ([F()] if rng.random() < 0.3 else [])))
+    if rng.random() < 0.3:
+        r_cl.append(("rule", A("r"), [F()]))
+    p_cl = []
+    if rng.random() < 0.8:
+        p_cl.append(("rule", A("p"), [F()]))
+    mode = rng.randrange(3)
+    if mode == 0:
+        p_cl.append(("rule", A("p"), ([F()] if rng.random() < 0.3 else []) + [N(A("p"))]))
+    elif mode == 1:
+        p_cl.append(("rule", A("p"), [N(A("q"))]))
+        p_cl.append(("rule", A("q"), [P(A("p"))] if rng.random() < 0.5 else [N(A("p")), F()][::-1]))
+    else:
+        p_cl.append(("rule", A("p"), [P(A("q"))]))
+        p_cl.append(("rule", A("q"), [F(), N(A("p"))]))
+    if rng.random() < 0.5:
+        rng.shuffle(r_cl)
+    if rng.random() < 0.5:
+        rng.shuffle(p_cl)
+    prog += r_cl + p_cl
+    for cl in prog:
+        if cl[0] == "rule":
+            cl[2].sort(key=lambda l: l[1])
+    qs = [A("r")] + ([A("p")] if rng.random() < 0.3 else [])
+    if rng.random() < 0.2:
+        qs.reverse()
+    for q in qs:
+        prog.append(("query", q))
     return prog
